@@ -223,15 +223,15 @@ def early_and_copied_objects(ck, exe):
                       "replay": "harness/drv.cpp: a global object's constructor encrypts / decrypts one block and hashes 'abc'; echo 'x sinit' | drv prints what it got"})
     lines = []
     for i in range(24 if ck.tier == "thorough" else 8):
-        lines.append("c%d aescopy %s %s %s" % (i, "ed"[i % 2], rnd16(r).hex(), rnd16(r).hex()))
-    want = wv.run_lines([mdrv, "spec"], [l.replace(" aescopy ", " aes ") for l in lines], shards=1)
+        lines.append("c%d aescopy %s %s %s%s" % (i, "ed"[i % 2], rnd16(r).hex(), rnd16(r).hex(), " use-copy" if i % 4 >= 2 else ""))
+    want = wv.run_lines([mdrv, "spec"], [l.replace(" aescopy ", " aes ").replace(" use-copy", "") for l in lines], shards=1)
     for l in lines:          # one process per line: the op leaves the process
         cid = l.split()[0]
         out = wv.run_lines([exe], [l], shards=1, env=ck.env())
         g = out.get("__aescopy", out.get(cid, "(no output: the process died)"))
         ck.cov["evaluations"] += 1
         if g != want.get(cid):
-            ck.violation("a cipher object gives a wrong block after a COPY of it was used and destroyed",
+            ck.violation("a cipher object (or its copy) gives a wrong block after a COPY was made and one of the two was used, destroyed or replaced",
                          {"class": None, "case": l, "implementation": g, "spec": want.get(cid), "replay": "echo 'x <case>' | harness/drv.cpp built against /repo"})
             break
     ck.cov.setdefault("case_classes", {})["static-initialisation-use/copied-object"] = 1 + len(lines)
